@@ -76,14 +76,35 @@ def canonicalize(x: float, y: float, z: float, face_tol: float = 0.0):
     return best
 
 
+_ORBIT = None
+
+
+def _orbit_maps():
+    """Signed permutations (even number of sign flips) and lattice shifts generating the local-equivalence orbit."""
+    global _ORBIT
+    if _ORBIT is None:
+        mats = []
+        for perm in itertools.permutations(range(3)):
+            for sg in ((1, 1, 1), (-1, -1, 1), (-1, 1, -1), (1, -1, -1)):
+                m = np.zeros((3, 3))
+                for i in range(3):
+                    m[i, perm[i]] = sg[i]
+                mats.append(m)
+        shifts = np.array(list(itertools.product((0, 1, -1), repeat=3)), dtype=float) * (PI / 2)
+        _ORBIT = (np.stack(mats), shifts)
+    return _ORBIT
+
+
 def weyl_distance(a, b) -> float:
-    """Distance between two canonical vectors, identifying (x,y,z) ~ (pi/2-x, y, -z) (the x=pi/4 face)."""
+    """Distance between the local-equivalence classes of two (near-canonical) interaction vectors: the minimum
+    max-norm distance between b and any orbit image of a (coordinate permutations, pairwise sign flips, shifts by
+    pi/2 of magnitude <= 1 per coordinate).  Insensitive to which representative a canonicaliser picks on the walls
+    of the Weyl chamber (x = pi/4 face, SWAP corner where a reflection has to be followed by a re-sort)."""
     a = np.array(a, dtype=float)
     b = np.array(b, dtype=float)
-    d0 = float(np.max(np.abs(a - b)))
-    am = np.array([PI / 2 - a[0], a[1], -a[2]])
-    d1 = float(np.max(np.abs(am - b)))
-    return min(d0, d1)
+    mats, shifts = _orbit_maps()
+    img = (mats @ a)[:, None, :] + shifts[None, :, :]
+    return float(np.min(np.max(np.abs(img - b), axis=-1)))
 
 
 def weyl_from_matrix(u: np.ndarray):
